@@ -111,6 +111,7 @@ type c33World struct {
 	noopLoad0 bool // the noop store answered LoadOffset with 0 although nothing was committed
 	commits   int
 	writes    int
+	passed    map[c33Rec]bool // unwritten records a checkpoint has already (reportedly) moved past
 	viols     []c33Viol
 	violSeen  map[string]bool
 }
@@ -136,7 +137,7 @@ func c33Listing(cs c33Case) []c33Seg {
 func c33NewWorld(cs c33Case) *c33World {
 	w := &c33World{cs: cs, module: cs.Module, noop: cs.Store == "noop", segs: c33Listing(cs), faults: map[int]string{},
 		windowCalls: -1, written: map[c33Rec]int{}, cause: map[c33Rec]string{}, persist: map[int32]int64{},
-		held: map[int32]bool{}, leased: -1, cycleLoad: map[int32]int{}, violSeen: map[string]bool{}}
+		held: map[int32]bool{}, leased: -1, cycleLoad: map[int32]int{}, violSeen: map[string]bool{}, passed: map[c33Rec]bool{}}
 	for _, f := range cs.Faults {
 		w.faults[f.Call] = f.Variant
 	}
@@ -370,17 +371,26 @@ func (w *c33World) commit(part int32, off int64) error {
 }
 
 // checkCheckpoint: every offset <= off of the partition has been passed to a successful Write.
+// All unwritten records the checkpoint moves past are remembered; the smallest one not
+// reported before is reported (later commits past the same records are the same violation).
 func (w *c33World) checkCheckpoint(part int32, off int64) {
+	reported := false
 	for _, s := range w.segs {
 		if s.Part != part {
 			continue
 		}
 		for i := 0; i < s.N; i++ {
 			u := s.Base + int64(i)
-			if u > off || w.written[c33Rec{part, u}] > 0 {
+			r := c33Rec{part, u}
+			if u > off || w.written[r] > 0 || w.passed[r] {
 				continue
 			}
-			c := w.cause[c33Rec{part, u}]
+			w.passed[r] = true
+			if reported {
+				continue
+			}
+			reported = true
+			c := w.cause[r]
 			var key string
 			switch {
 			case c == "lfs":
@@ -394,7 +404,6 @@ func (w *c33World) checkCheckpoint(part int32, off int64) {
 			}
 			w.violate(key, fmt.Sprintf("CommitOffset(partition %d, offset %d) took effect while offset %d of that partition had never been passed to a successful Write (last reason it was not written: %q); trace: %s",
 				part, off, u, c, strings.Join(w.trace, " ")))
-			return
 		}
 	}
 }
@@ -421,7 +430,7 @@ func (w *c33World) finalCheck(leased int32, runErr string) {
 			if w.written[r] > 0 {
 				continue
 			}
-			if cp, ok := w.persist[leased]; ok && cp >= u && len(w.viols) > 0 {
+			if w.passed[r] {
 				continue // already reported when the checkpoint moved past it
 			}
 			key := "record-never-written"
